@@ -93,9 +93,20 @@ class CovLift:
         sp = npproxy.SubProxy(self.scipy, {"linalg": sl})
         self.proxy = npproxy.Proxy()
         klass = type(m)
+        # several variants: each variant has its OWN variance symbols (v_<shock> for variant 0, v_<shock>__v<k> for variant k)
+        self.vu_k, self.vw_k = {0: self.vu}, {0: self.vw}
+        for k in range(1, len(m._variants)):
+            self.vu_k[k] = [S.sym(f"v_{q2n[t.qid]}__v{k}", self.values.get(f"v_{q2n[t.qid]}__v{k}", Fraction(2, 3))) for t in vec.transition_shocks]
+            self.vw_k[k] = [S.sym(f"v_{q2n[t.qid]}__v{k}", self.values.get(f"v_{q2n[t.qid]}__v{k}", Fraction(1, 4))) for t in vec.measurement_shocks]
+
+        def vindex(self_, variant):
+            for k, v in enumerate(self_._variants):
+                if v is variant:
+                    return k
+            raise KeyError("variant is not one of the model's variants")
         extra = [(self.cv, "_sp", sp),
-                 (klass, "getv_cov_u", lambda self_, variant: _diag([sc_ * v for v in outer.vu])),
-                 (klass, "getv_cov_w", lambda self_, variant: _diag([sc_ * v for v in outer.vw]))]
+                 (klass, "getv_cov_u", lambda self_, variant: _diag([sc_ * v for v in outer.vu_k[vindex(self_, variant)]])),
+                 (klass, "getv_cov_w", lambda self_, variant: _diag([sc_ * v for v in outer.vw_k[vindex(self_, variant)]]))]
         self._ctx = npproxy.installed(self.proxy, self.cv, self.sc, extra=extra)
         self._ctx.__enter__()
         return self
@@ -310,19 +321,151 @@ def check_model(run, ir, zm, order):
     run.ok(key2)
 
 
+def _variant_params(zm, k):
+    """parameter values of variant k: the first parameter is scaled by 0.8 in variant 1"""
+    p = zm.float_params()
+    if k and p:
+        first = sorted(p)[0]
+        p[first] = p[first] * 0.8
+    return p
+
+
+def _two_variant_model(ir, zm, stds_by_variant=None):
+    M = fo.build_model(ir, zm, solve=False, **STDS.get(zm.name, {}))
+    M.alter_num_variants(2)
+    p0, p1 = _variant_params(zm, 0), _variant_params(zm, 1)
+    if p0:
+        M.assign(**{k_: [p0[k_], p1[k_]] for k_ in p0})
+    if stds_by_variant:
+        M.assign(**{k_: [stds_by_variant[0][k_], stds_by_variant[1][k_]] for k_ in stds_by_variant[0]})
+    M.steady()
+    M.solve()
+    return M
+
+
+def check_variants(run, ir, zm, order):
+    """a two-variant model (different parameters, independent variance symbols per variant): each variant's autocovariances satisfy the
+    Lyapunov / measurement / order-j relations of ITS OWN solution and ITS OWN shock variances"""
+    key = f"acov:variants:{zm.name}:order<={order}"
+    case = dict(kind="variants", model=zm.name, order=order)
+    finding = f"acov:variants:{zm.name}"
+    M = _two_variant_model(ir, zm)
+    with CovLift(ir, M) as L, S.Path() as path:
+        fulls = [M.getv_autocov(v, ..., up_to_order=order) for v in M._variants]
+        api = M.get_acov(up_to_order=order)
+    claims, problems = [], []
+    if len(api) != 2:
+        run.counterexample(key, finding, f"get_acov on a two-variant model returns {len(api)} items", dict(case, values={}))
+        return
+    for k in range(2):
+        F = fo.build_model(ir, zm, **dict(STDS.get(zm.name, {}), **_variant_params(zm, k)))
+        sol = F.get_solution()
+        T, P, Z, H = (np.array(getattr(sol, n_), dtype=float).astype(object) for n_ in "TPZH")
+        n, ny = T.shape[0], Z.shape[0]
+        vec = F._get_dynamic_solution_vectors()
+        q2n = F.create_qid_to_name()
+        xi_names = [(q2n[t.qid], t.shift) for t in vec.transition_variables]
+        V, W = _diag(L.vu_k[k]), _diag(L.vw_k[k])
+        full = fulls[k]
+        C0 = np.asarray(full[0], dtype=object)
+        X, XY = C0[:n, :n], C0[:n, n:]
+        _mat_claims(f"v{k} lyapunov C0_xx", X, T @ X @ T.T + P @ V @ P.T, claims, problems)
+        if ny:
+            _mat_claims(f"v{k} measurement C0_yy", C0[n:, n:], Z @ X @ Z.T + H @ W @ H.T, claims, problems)
+            _mat_claims(f"v{k} cross C0_xy", XY, X @ Z.T, claims, problems)
+        prev = C0
+        for j in range(1, order + 1):
+            Cj = np.asarray(full[j], dtype=object)
+            _mat_claims(f"v{k} C{j}_xx", Cj[:n, :n], T @ prev[:n, :n], claims, problems)
+            if ny:
+                _mat_claims(f"v{k} C{j}_yy", Cj[n:, n:], Z @ T @ prev[:n, n:], claims, problems)
+            prev = Cj
+        sel = [i for i, (nm, sh) in enumerate(xi_names) if sh == 0] + [n + i for i in range(ny)]
+        for j in range(order + 1):
+            Aj = np.asarray(api[k][j], dtype=object)
+            Fj = np.asarray(full[j], dtype=object)[np.ix_(sel, sel)]
+            if Aj.shape != Fj.shape:
+                problems.append(f"variant {k}: get_acov order {j} has shape {Aj.shape}, expected {Fj.shape}")
+                continue
+            _mat_claims(f"v{k} api C{j}", Aj, Fj, claims, problems)
+    if problems:
+        run.counterexample(key, finding, "; ".join(problems[:3]), dict(case, values={}))
+        return
+    allv = [v for k in range(2) for v in L.vu_k[k] + L.vw_k[k]]
+    syms = {str(v.t): v for v in allv}
+    box = [z3.And(v.t >= 0, v.t <= 1) for v in syms.values()]
+    assume = box + L.contract + [path.condition()]
+    r0, _ = run.check_sat(assume, timeout_ms=30000)
+    if r0 != "sat" or not claims:
+        run.unknown(key, f"reachability witness {r0} / {len(claims)} claims")
+        return
+    run.reach_ok += 1
+    viol = z3.Or(*[z3.Or(t > TOL, t < -TOL) for _, t in claims])
+    res, mdl = run.check_sat(assume + [viol], timeout_ms=180000)
+    if res == "unsat":
+        if len(run.samples) < 12:
+            run.samples.append({"obligation": key, "verdict": "unsat: in a two-variant model each variant's autocovariances satisfy the relations of its own solution and its own variances",
+                                "claims": len(claims), "contract_equations": len(L.contract)})
+        run.ok(key)
+    elif res == "sat":
+        # a witness with clearly different variances in the two variants
+        vals = model_values(mdl, sorted(syms))
+        bad = []
+        for labl, t in claims:
+            dv = mdl.eval(t, model_completion=True)
+            fv = Fraction(dv.numerator_as_long(), dv.denominator_as_long())
+            if abs(fv) > TOL:
+                bad.append((labl, float(fv)))
+        run.counterexample(key, finding, f"a variant's autocovariances violate {bad[:3]}", dict(case, bad=bad[:5], values={k_: [v.numerator, v.denominator] for k_, v in vals.items()}))
+    else:
+        run.unknown(key, f"solver {res}")
+
+
+def _replay_variants(ir, case):
+    zm = _zm(case["model"])
+    order = case["order"]
+    vals = {k: float(Fraction(a, b)) for k, (a, b) in case.get("values", {}).items()}
+    m0 = fo.build_model(ir, zm, **STDS.get(zm.name, {}))
+    vec = m0._get_dynamic_solution_vectors()
+    q2n = m0.create_qid_to_name()
+    shocks = [q2n[t.qid] for t in list(vec.transition_shocks) + list(vec.measurement_shocks)]
+    stds = []
+    for k in range(2):
+        suffix = f"__v{k}" if k else ""
+        stds.append({"std_" + nm: math.sqrt(max(vals.get("v_" + nm + suffix, 0.5 + 0.25 * k), 0.0)) for nm in shocks})
+    M = _two_variant_model(ir, zm, stds_by_variant=stds)
+    try:
+        api = M.get_acov(up_to_order=order)
+    except Exception as exc:
+        return True, f"get_acov raises {type(exc).__name__}: {exc}"
+    worst, msg = 0.0, "each variant equals the single-variant model with its values"
+    for k in range(2):
+        F = fo.build_model(ir, zm, **dict(_variant_params(zm, k), **stds[k]))
+        ref = F.get_acov(up_to_order=order)
+        for j in range(order + 1):
+            a, b = np.asarray(api[k][j], dtype=float), np.asarray(ref[j], dtype=float)
+            if a.shape != b.shape:
+                return True, f"variant {k} order {j}: shape {a.shape} vs {b.shape}"
+            both = ~(np.isnan(a) & np.isnan(b))
+            d = float(np.nanmax(np.abs(np.where(both, a - b, 0.0)))) if a.size else 0.0
+            if d > worst or d != d:
+                worst, msg = (d if d == d else float("inf")), f"variant {k}, order {j}: differs from the single-variant model by {d!r}"
+    return worst > 1e-7, msg
+
+
 def main(run):
     ir = load_irispie()
     run.extra["proxy_selftest_checks"] = npproxy.selftest()
     run.functions_encoded += ["fords.covariances.{get_autocov_square,get_autocov_square_00,get_autocov_triangular_00,get_cov_triangular_00,get_cov_alpha_00,acorr_from_acov,"
                               "_get_scale_matrix,get_acorr_by_variant}", "simultaneous._covariances.Inlay.{get_acov,getv_autocov,get_acorr,get_acov_dimension_names,_get_system_vector}",
                               "fords.solutions.Solution.{Ta_stable,Pa_stable,Za_stable,boolex_stable_*}"]
-    run.bounds["structures"] = "zoo models nk3, ar2m, pc_const, lead2 (stationary) and ur_drift (unit root); orders k<=1 (quick) / k<=2 (thorough); one variant"
+    run.bounds["structures"] = "zoo models nk3, ar2m, pc_const, lead2 (stationary) and ur_drift (unit root); orders k<=1 (quick) / k<=2 (thorough); one variant, and two-variant models (ar2m, nk3; pc_const thorough) with different parameters and independent variance symbols per variant"
     run.bounds["values"] = "every shock variance an independent real in [0,1]; tolerance 1e-8 (solution matrices are float-born)"
     run.stubs += ["scipy.linalg.solve_discrete_lyapunov -> fresh symmetric X with the contract X = Ta X Ta' + Sigma", "getv_cov_u/getv_cov_w -> diag of symbolic variances "
                   "(numpy.diag(stds**2) itself is not covered)"]
     run.assumptions += ["the oracle uses the square solution T,P,Z,H returned by get_solution() (C01 decides the solution)", "unit-root-loaded names for the NaN pattern are listed "
                         "per zoo model from the model's own structure (ur_drift: l and its observation ol)"]
-    run.outside += ["models outside the zoo", "multiple variants", "the value of the finite block of unit-root models beyond NaN pattern, selection and homogeneity"]
+    run.outside += ["models outside the zoo", "more than two variants", "the value of the finite block of unit-root models beyond NaN pattern, selection and homogeneity"]
     order = 1 if run.tier == "quick" else 2
     for name in ("nk3", "ar2m", "pc_const", "ur_drift", "ar_rw") + (("lead2",) if run.tier == "thorough" else ()):
         zm = _zm(name)
@@ -334,11 +477,21 @@ def main(run):
             run.unknown(f"acov:{name}", exc)
         except Exception as exc:
             run.error(f"acov:{name}", exc)
+    for name in ("ar2m", "nk3") + (("pc_const",) if run.tier == "thorough" else ()):
+        zm = _zm(name)
+        try:
+            check_variants(run, ir, zm, order)
+        except S.SymbolicBranchError as exc:
+            run.unknown(f"acov:variants:{name}", exc)
+        except Exception as exc:
+            run.error(f"acov:variants:{name}", exc)
     run.extra["exhaustive"] = True
 
 
 def replay(case):
     ir = load_irispie()
+    if case.get("kind") == "variants":
+        return _replay_variants(ir, case)
     zm = _zm(case["model"])
     order = case["order"]
     vals = {k: float(Fraction(a, b)) for k, (a, b) in case.get("values", {}).items()}
